@@ -106,7 +106,7 @@ def bits_needed(s):
 
 
 def check_class(r, k, G, start, cont, extra, fast_ok, quick=True, brute=0):
-    acc = U.A(G)
+    acc = U.A_reuse(G)
     strings = automaton_strings(G, start, cont, extra)
     if brute:
         have = {x for x, _ in strings}
